@@ -12,7 +12,8 @@ STD = ("os", "sys", "math", "string")
 
 class Gen:
 
-  def __init__(self, rng, modname, upstream=(), errors=True, rich=True):
+  def __init__(self, rng, modname, upstream=(), errors=True, rich=True,
+               theme=None, fork=None):
     self.r = rng
     self.modname = modname
     self.upstream = list(upstream)   # [(name, exported names dict kind->list)]
@@ -22,7 +23,17 @@ class Gen:
     self.funcs = []      # (name, nparams, annotated)
     self.classes = []    # (name, attrs, methods)
     self.nested = []     # dotted names of nested classes, e.g. "C1.N4"
+    self.bases_of = {}   # class name -> list of base names (own classes only)
+    self.generics = []   # names of Generic[T] classes
     self.n = 0
+    self.theme = theme   # class names shared by all programs of one run
+    self.fork = fork     # (k, seed): after k statements continue with another
+                         # PRNG - two modules with a common prefix and colliding
+                         # names that mean different things afterwards
+    # swarm: which feature families this module draws from (each p ~ 0.5).
+    # `rich=False` keeps the original narrow generator.
+    self.prof = {k: (rich and rng.random() < 0.5)
+                 for k in ("hier", "multi_up", "flow", "generic", "alias")}
 
   def fresh(self, prefix):
     self.n += 1
@@ -163,12 +174,38 @@ class Gen:
 
   def gen_class(self):
     r = self.r
-    name = self.fresh("C")
+    name = None
+    if self.prof["hier"] and r.random() < 0.65:
+      # names from a small pool shared by all generated modules: different
+      # programs of one run then define the same class name with different
+      # hierarchies (material for process-global caches keyed by name)
+      free = [x for x in (self.theme or NAME_POOL)
+              if x not in {c[0] for c in self.classes}]
+      if free:
+        name = r.choice(free)
+    if name is None:
+      name = self.fresh("C")
     bases = []
-    if self.classes and r.random() < 0.5:
-      bases = [c[0] for c in r.sample(self.classes, min(len(self.classes), r.choice([1, 1, 2])))]
+    own_bases = []
+    if self.classes and r.random() < (0.7 if self.prof["hier"] else 0.5):
+      own_bases = [c[0] for c in r.sample(self.classes, min(len(self.classes), r.choice([1, 1, 2])))]
+      own_bases = _c3_safe(own_bases, self.bases_of)
+      bases = list(own_bases)
+    elif self.prof["hier"] and r.random() < 0.25:
+      bases = [r.choice(["int", "str", "Exception"])]
+    elif self.prof["multi_up"] and self.upstream and r.random() < 0.3:
+      up, exports = r.choice(self.upstream)
+      if exports.get("classes"):
+        bases = ["%s.%s" % (up, r.choice(exports["classes"]))]
+    self.bases_of[name] = own_bases
     self.emit("class %s%s:" % (name, "(%s)" % ", ".join(bases) if bases else ""))
     attrs, methods = [], []
+    if self.prof["hier"] and r.random() < 0.3:
+      m = self.fresh("m")
+      self.emit("  @classmethod")
+      self.emit("  def %s(cls):" % m)
+      self.emit("    return cls()")
+      methods.append((m, "class"))
     for _ in range(r.randrange(0, 3)):
       a = self.fresh("a")
       if r.random() < 0.4:
@@ -199,8 +236,17 @@ class Gen:
       elif k < 0.45:
         self.emit("  @classmethod")
         self.emit("  def %s(cls):" % m)
-        self.emit("    return %s" % self.expr(1))
+        if r.random() < 0.4:
+          # alternative constructor: the result depends on the class it is
+          # looked up through
+          self.emit("    return %s" % r.choice(["cls()", "cls()", "cls()", "[cls()]", "(cls(), 1)"]))
+        else:
+          self.emit("    return %s" % self.expr(1))
         methods.append((m, "class"))
+      elif k < 0.5:
+        self.emit("  def %s(self):" % m)
+        self.emit("    return self")
+        methods.append((m, "inst"))
       elif k < 0.6:
         an = self.ann()
         self.emit("  def %s(self, v: int = 0) -> %s:" % (m, an))
@@ -279,6 +325,195 @@ class Gen:
     else:
       self.emit("%s = int('1', 2, 3, 4)" % self.fresh("e"))
 
+
+  # -- feature families added for deeper coverage ------------------------------
+  def _related_pair(self):
+    """Two own classes, preferring a (base, derived) pair."""
+    r = self.r
+    names = [c[0] for c in self.classes]
+    pairs = [(b, d) for d in names for b in self.bases_of.get(d, ())]
+    if pairs and r.random() < 0.75:
+      return r.choice(pairs)
+    if len(names) >= 2:
+      return tuple(r.sample(names, 2))
+    return None
+
+  def gen_hier_union(self):
+    """Values whose type is a union of classes of one hierarchy."""
+    r = self.r
+    pair = self._related_pair()
+    if pair is None:
+      return self.gen_class()
+    a, b = pair
+    if r.random() < 0.5:
+      a, b = b, a
+    k = r.random()
+    if k < 0.35:
+      c = self.fresh("K")
+      self.emit("%s = (%s() if %s else %s())" % (c, a, self.unknown_cond(), b))
+      self.consts.append((c, "const"))
+    elif k < 0.75:
+      f = self.fresh("f")
+      self.emit("def %s(flag=None):" % f)
+      self.emit("  if flag:")
+      self.emit("    return %s()" % a)
+      if r.random() < 0.3:
+        self.emit("  elif flag is None:")
+        self.emit("    return %s" % r.choice(["None", "1", "%s()" % a]))
+      self.emit("  return %s()" % b)
+      self.emit()
+      self.funcs.append((f, 0, False))
+    elif k < 0.9:
+      c = self.fresh("K")
+      self.emit("%s = [%s(), %s()]" % (c, a, b))
+      self.consts.append((c, "const"))
+    else:
+      c = self.fresh("K")
+      self.emit("%s = {'x': %s(), 'y': %s()}" % (c, a, b))
+      self.consts.append((c, "const"))
+
+  def gen_upstream_multi(self):
+    """Several names of ONE upstream module in this module's public types."""
+    r = self.r
+    cands = [(u, e) for u, e in self.upstream if len(e.get("classes", [])) >= 2]
+    if not cands:
+      return self.gen_upstream_use()
+    up, exports = r.choice(cands)
+    cls = r.sample(exports["classes"], min(len(exports["classes"]), r.randrange(2, 5)))
+    for i, cn in enumerate(cls):
+      k = r.random()
+      if k < 0.4:
+        c = self.fresh("u")
+        self.emit("%s = %s.%s()" % (c, up, cn))
+        self.consts.append((c, "const"))
+      elif k < 0.6:
+        f = self.fresh("f")
+        self.emit("def %s():" % f)
+        self.emit("  return %s.%s()" % (up, cn))
+        self.emit()
+        self.funcs.append((f, 0, False))
+      elif k < 0.8:
+        other = cls[(i + 1) % len(cls)]
+        f = self.fresh("f")
+        self.emit("def %s(x: %s.%s) -> %s.%s:" % (f, up, cn, up, other))
+        self.emit("  return %s.%s()" % (up, other))
+        self.emit()
+        # not callable with scalar arguments: keep it out of expr()
+      else:
+        c = self.fresh("u")
+        other = cls[(i + 1) % len(cls)]
+        self.emit("%s = [%s.%s(), %s.%s()]" % (c, up, cn, up, other))
+        self.consts.append((c, "const"))
+
+  def gen_flow(self):
+    """Functions whose CFG has loops / handlers / narrowing (several bindings
+    per name, cyclic graphs for the solver)."""
+    r = self.r
+    f = self.fresh("f")
+    k = r.randrange(6)
+    if k == 0:
+      self.emit("def %s(xs=()):" % f)
+      self.emit("  out = %s" % self.scalar())
+      self.emit("  for x in xs:")
+      self.emit("    if x:")
+      self.emit("      out = %s" % self.expr(1))
+      self.emit("    else:")
+      self.emit("      out = %s" % self.expr(1))
+      self.emit("  return out")
+    elif k == 1:
+      self.emit("def %s():" % f)
+      self.emit("  try:")
+      self.emit("    v = %s" % self.expr(1))
+      self.emit("  except ValueError:")
+      self.emit("    v = %s" % self.expr(1))
+      self.emit("  except (KeyError, TypeError):")
+      self.emit("    v = %s" % self.scalar())
+      self.emit("  return v")
+    elif k == 2:
+      self.emit("def %s():" % f)
+      self.emit("  acc = []")
+      self.emit("  while %s:" % self.unknown_cond())
+      self.emit("    acc.append(%s)" % self.expr(1))
+      self.emit("    if %s:" % self.unknown_cond())
+      self.emit("      acc.append(%s)" % self.scalar())
+      self.emit("  return acc")
+    elif k == 3:
+      self.emit("def %s(v=None):" % f)
+      self.emit("  if isinstance(v, int):")
+      self.emit("    return v")
+      self.emit("  elif isinstance(v, (str, bytes)):")
+      self.emit("    return [v]")
+      self.emit("  return %s" % self.expr(1))
+    elif k == 4:
+      self.emit("def %s():" % f)
+      self.emit("  d = {}")
+      self.emit("  for i in range(3):")
+      self.emit("    d[%s] = %s" % (self.scalar(), self.expr(1)))
+      self.emit("  return d")
+    else:
+      self.emit("def %s():" % f)
+      self.emit("  x = %s" % self.scalar())
+      self.emit("  y = %s" % self.scalar())
+      self.emit("  while %s:" % self.unknown_cond())
+      self.emit("    x, y = y, x")
+      self.emit("    if %s:" % self.unknown_cond())
+      self.emit("      break")
+      self.emit("  return (x, y)")
+    self.emit()
+    self.funcs.append((f, 0, False))
+
+  def gen_generic(self):
+    """TypeVar functions and a Generic class with parameterised instances."""
+    r = self.r
+    if not getattr(self, "_tv", False):
+      self.emit("T = TypeVar('T')")
+      self._tv = True
+    k = r.random()
+    if k < 0.4:
+      f = self.fresh("f")
+      self.emit("def %s(x: T) -> %s:" % (f, r.choice(["T", "List[T]", "Optional[T]", "Tuple[T, int]"])))
+      self.emit("  return %s" % "ANYV")
+      self.emit()
+      c = self.fresh("K")
+      self.emit("%s = %s(%s)" % (c, f, self.scalar()))
+      self.consts.append((c, "const"))
+    else:
+      g = self.fresh("G")
+      self.emit("class %s(Generic[T]):" % g)
+      self.emit("  def __init__(self, v: T):")
+      self.emit("    self.v = v")
+      self.emit("  def get(self) -> T:")
+      self.emit("    return self.v")
+      self.emit("  def put(self, v: T) -> None:")
+      self.emit("    self.v = v")
+      self.emit()
+      self.generics.append(g)
+      for _ in range(r.randrange(1, 3)):
+        c = self.fresh("K")
+        self.emit("%s = %s(%s)" % (c, g, self.scalar()))
+        self.consts.append((c, "const"))
+      if r.random() < 0.5:
+        f = self.fresh("f")
+        self.emit("def %s():" % f)
+        self.emit("  return %s(%s)" % (g, self.scalar()))
+        self.emit()
+        self.funcs.append((f, 0, False))
+
+  def gen_alias(self):
+    r = self.r
+    k = r.random()
+    if k < 0.4 and self.classes:
+      self.emit("%s = %s" % (self.fresh("Al"), r.choice(self.classes)[0]))
+    elif k < 0.7 and self.funcs:
+      self.emit("%s = %s" % (self.fresh("al"), r.choice(self.funcs)[0]))
+    elif self.upstream:
+      up, exports = r.choice(self.upstream)
+      names = exports.get("classes", []) + exports.get("funcs", [])
+      if names:
+        self.emit("%s = %s.%s" % (self.fresh("Al"), up, r.choice(names)))
+    else:
+      self.gen_const()
+
   def gen_upstream_use(self):
     r = self.r
     up, exports = r.choice(self.upstream)
@@ -298,7 +533,8 @@ class Gen:
   def module(self, size=None):
     r = self.r
     self.emit("import os, sys, math, string")
-    self.emit("from typing import Any, Callable, Dict, List, Optional, Tuple, Union")
+    self.emit("from typing import Any, Callable, Dict, Generic, List, Optional, Tuple, TypeVar, Union")
+    self.emit("ANYV: Any = None")
     for up, exports in self.upstream:
       names = sorted(exports.get("consts", []) + exports.get("funcs", []))
       if len(names) >= 2 and r.random() < 0.6:
@@ -307,9 +543,28 @@ class Gen:
       self.emit("import %s" % up)
     self.emit()
     size = size or r.randrange(4, 16)
-    for _ in range(size):
+    prof = self.prof
+    if prof["multi_up"] and not self.upstream:
+      # this module is (also) somebody's upstream: give it several classes
+      for _ in range(r.randrange(2, 4)):
+        self.gen_class()
+    for stmt_no in range(size):
+      if self.fork and stmt_no == self.fork[0]:
+        import random as _random
+        r = self.r = _random.Random(self.fork[1])
       x = r.random()
-      if x < 0.3:
+      y = r.random()
+      if prof["hier"] and y < 0.22:
+        self.gen_hier_union()
+      elif prof["multi_up"] and self.upstream and y < 0.3:
+        self.gen_upstream_multi()
+      elif prof["flow"] and y < 0.2:
+        self.gen_flow()
+      elif prof["generic"] and y < 0.12:
+        self.gen_generic()
+      elif prof["alias"] and y < 0.1:
+        self.gen_alias()
+      elif x < 0.3:
         self.gen_const(private=r.random() < 0.15)
       elif x < 0.5:
         self.gen_func()
@@ -334,6 +589,25 @@ class Gen:
             "classes": [c for c, _, _ in self.classes]}
 
 
+NAME_POOL = ("Base", "Derived", "Leaf", "Shape", "Circle", "Item", "Count")
+
+
+def _c3_safe(bases, bases_of):
+  """Drops the second base when CPython itself could not linearise the class."""
+  built = {}
+
+  def build(n):
+    if n not in built:
+      built[n] = type(n, tuple(build(b) for b in bases_of.get(n, ())), {})
+    return built[n]
+
+  try:
+    type("X", tuple(build(b) for b in bases), {})
+    return bases
+  except TypeError:
+    return bases[:1]
+
+
 def _split_top(s):
   out, depth, cur = [], 0, []
   for ch in s:
@@ -351,10 +625,24 @@ def _split_top(s):
   return out
 
 
-def gen_module(rng, modname, upstream=(), errors=True, size=None):
-  g = Gen(rng, modname, upstream, errors)
+def gen_module(rng, modname, upstream=(), errors=True, size=None, theme=None,
+               fork=None):
+  g = Gen(rng, modname, upstream, errors, theme=theme, fork=fork)
   src = g.module(size)
   return src, g.exports()
+
+
+def drop_some_bases(rng, src):
+  """A variant of a module in which one class has lost its base classes: every
+  name still means something, but the hierarchy differs."""
+  import re
+  lines = src.split("\n")
+  idx = [i for i, ln in enumerate(lines) if re.match(r"class \w+\(.*\):$", ln)]
+  if not idx:
+    return src
+  i = rng.choice(idx)
+  lines[i] = re.sub(r"\(.*\):$", ":", lines[i])
+  return "\n".join(lines)
 
 
 # ---------------------------------------------------------------------------
